@@ -16,6 +16,7 @@ import (
 
 // Obligation is one verification condition: Assumptions ==> Goal.
 type Obligation struct {
+	Retried bool
 	Name   string   // e.g. A/searchNode4/ret#1/ensures#1
 	Func   string   // function it was generated from
 	Kind   string   // safety | requires | ensures | invariant | lemma | cover | ...
@@ -81,6 +82,12 @@ func (o *Obligation) Query(st *Symtab) string {
 }
 
 func runSolver(ctx context.Context, name string, query string, timeout time.Duration, wantModel bool) (res string, out string, dur float64) {
+	return runSolverR(ctx, name, query, timeout, wantModel, 0)
+}
+
+// runSolverR: rlimit > 0 bounds z3 by its deterministic resource counter instead of (only) wall
+// time, so that the answer does not depend on the load of the machine.
+func runSolverR(ctx context.Context, name string, query string, timeout time.Duration, wantModel bool, rlimit int) (res string, out string, dur float64) {
 	q := query
 	if wantModel {
 		q = "(set-option :produce-models true)\n" + query + "(get-model)\n"
@@ -94,7 +101,11 @@ func runSolver(ctx context.Context, name string, query string, timeout time.Dura
 	defer cancel()
 	switch name {
 	case "z3-new":
-		cmd = exec.CommandContext(cctx, "z3-new", "-in", "-smt2", fmt.Sprintf("-T:%d", secs))
+		if rlimit > 0 {
+			cmd = exec.CommandContext(cctx, "z3-new", "-in", "-smt2", fmt.Sprintf("-T:%d", secs), fmt.Sprintf("rlimit=%d", rlimit))
+		} else {
+			cmd = exec.CommandContext(cctx, "z3-new", "-in", "-smt2", fmt.Sprintf("-T:%d", secs))
+		}
 	case "z3":
 		cmd = exec.CommandContext(cctx, "/usr/bin/z3", "-in", "-smt2", fmt.Sprintf("-T:%d", secs))
 	case "cvc5":
@@ -334,4 +345,43 @@ func DischargeAll(obs []*Obligation, st *Symtab, cfg *SolverCfg, workers int) {
 	}
 	close(ch)
 	wg.Wait()
+	// Undecided obligations (timeout / unknown, never sat) are retried a few at a time with a
+	// tripled time limit: a loaded machine must not turn into an alarm.
+	var undecided []*Obligation
+	for _, o := range obs {
+		if !o.Cover && o.Result != "unsat" && o.Result != "sat" && o.Solver != "simplifier" && o.Solver != "static-analysis" {
+			undecided = append(undecided, o)
+		}
+	}
+	if len(undecided) == 0 || cfg.Agree {
+		return
+	}
+	cfg2 := *cfg
+	cfg2.QuickTimeout = cfg.FullTimeout
+	cfg2.FullTimeout = 3 * cfg.FullTimeout
+	deadline := time.Now().Add(6 * time.Minute)
+	ch2 := make(chan *Obligation)
+	var wg2 sync.WaitGroup
+	for i := 0; i < 3; i++ {
+		wg2.Add(1)
+		go func() {
+			defer wg2.Done()
+			for o := range ch2 {
+				if time.Now().After(deadline) {
+					continue
+				}
+				prev := o.Result
+				o.Retried = true
+				Discharge(o, st, &cfg2)
+				if o.Result != "unsat" && o.Result != "sat" && prev != "" {
+					o.Result = prev
+				}
+			}
+		}()
+	}
+	for _, o := range undecided {
+		ch2 <- o
+	}
+	close(ch2)
+	wg2.Wait()
 }
